@@ -336,3 +336,5 @@ M("C13", "ips-ast-fields-swapped", ASTN, "        self.file_path = file_path\n  
 M("C19", "shared-macro-table-passed-down", CG, "    macro_definitions: MacroDefinitions = {}\n    return _code_gen(ast_nodes, resolver, macro_definitions)", "    return _code_gen(ast_nodes, resolver, _SHARED)", "C19.R5",
   edits=[(CG, "    macro_definitions: MacroDefinitions = {}\n    return _code_gen(ast_nodes, resolver, macro_definitions)", "    return _code_gen(ast_nodes, resolver, _SHARED)"),
          (CG, "def code_gen(ast_nodes: list[AstNode], resolver: Resolver) -> GenNodes:", "_SHARED: MacroDefinitions = {}\n\n\ndef code_gen(ast_nodes: list[AstNode], resolver: Resolver) -> GenNodes:")])
+M("C16", "revert-space-before-closing-bracket", SST, "    if s.accept(\",\"):\n        lex_opcode_index(s)\n        s.ignore_run(\" \")\n\n    p = s.peek()\n\n    if p == \")\":", "    if s.accept(\",\"):\n        lex_opcode_index(s)\n\n    p = s.peek()\n\n    if p == \")\":", "C16.R2")
+M("C16", "revert-mnemonic-then-semicolon", SST, "        \".\",\n        \";\",\n        EOF,\n    ):", "        \".\",\n        EOF,\n    ):", "C16.R2")
